@@ -137,3 +137,22 @@ Theorem C18_calendar_ranges : forall d,
   let '(y, m, dd) := civil_from_days d in 1 <= m <= 12 /\ 1 <= dd <= days_in_month y m.
 Proof. exact civil_ranges. Qed.
 Print Assumptions C18_calendar_ranges.
+
+(** *** durations as text (DurFmt.v: chrono's Display of TimeDelta in the JSON serializer; compared byte for byte with the
+    binary on every run): the JSON text determines the duration, for every duration *)
+From AG Require Import DurFmt DurFmt_proofs.
+
+Theorem C18_duration_json_text_injective : forall a b : Z, fmt_dur_iso a = fmt_dur_iso b -> a = b.
+Proof. exact fmt_dur_iso_injective. Qed.
+Print Assumptions C18_duration_json_text_injective.
+
+Theorem C18_duration_json_text_shape : forall ns,
+  (exists r, fmt_dur_iso ns = 80%N :: r /\ 0 <= ns) \/ (exists r, fmt_dur_iso ns = 45%N :: 80%N :: r /\ ns < 0).
+Proof. exact fmt_dur_iso_starts. Qed.
+Print Assumptions C18_duration_json_text_shape.
+
+(** the serializer of the model with both chrono texts filled in writes exactly these *)
+Theorem C18_serializer_texts : forall ns,
+  value_json' (VDur ns) = JStr (fmt_dur_iso ns) /\ value_json' (VDate ns) = JStr (fmt_rfc3339 ns).
+Proof. intros ns; split; [exact (value_json_dur ns) | reflexivity]. Qed.
+Print Assumptions C18_serializer_texts.
